@@ -274,3 +274,30 @@ pub fn wide_parent_history(n: u16, variant: u8) -> HistoryCase {
         dance: 0,
     }
 }
+
+
+/// A bucket of `n` page-sized values is filled in one commit and deleted in the next, every writer
+/// beginning under a short-lived reader: nothing is allocatable in the deleting commit, so the
+/// new free-list run is taken from the end of the file and holds exactly the ids the deletion
+/// produced. Then close, reopen, two small commits. With `n` swept, the persisted free list
+/// passes through the exact capacity of a one-page (123 ids) and a two-page (251 ids) run.
+pub fn exactfit_freelist_history(n: u16) -> HistoryCase {
+    let mut fill = vec![Op::GetOrCreate { b: 0, k: KeySel::Lit(b"v".to_vec()), kk: 2 }];
+    let mut at = 0u16;
+    while at < n {
+        let m = (n - at).min(250) as u8;
+        fill.push(Op::PutRun { b: 0, base: vec![b'p'], start: at, step: 1, n: m, klen: 0, vlen: 900 });
+        at += m as u16;
+    }
+    let small = |i: u16| TxSpec { kind: TxKind::Commit, ops: vec![Op::GetOrCreate { b: 0, k: KeySel::Lit(format!("w{}", i).into_bytes()), kk: 2 }] };
+    let txs = vec![
+        TxSpec { kind: TxKind::Commit, ops: fill },
+        TxSpec { kind: TxKind::Commit, ops: vec![Op::DeleteBucket { b: 0, k: KeySel::Lit(b"v".to_vec()), kk: 2 }] },
+        TxSpec { kind: TxKind::Reopen, ops: vec![] },
+        small(0),
+        small(1),
+        TxSpec { kind: TxKind::Reopen, ops: vec![] },
+        small(2),
+    ];
+    HistoryCase { cfg: Cfg { pagesize: 1024, num_pages: 32, strict: false, populate: false }, fresh_handles: false, txs, dance: 1 }
+}
